@@ -7,7 +7,7 @@ open Lean Pywbem.Proto Pywbem.Model.Pull Pywbem.Model.Iter
         "lang":0|1|2,"query":bool,"coe":bool,"rqrc":bool}          A = null | int | "x" (non-int type)
      | {"ev":"next","g":i} | {"ev":"close","g":i} | {"ev":"drop","g":i}
      | {"ev":"throw","g":i,"code":int|null}      (null: a non-CIM exception, modelled as OSError)
-     | {"ev":"disable","v":bool}
+     | {"ev":"disable","v":bool} | {"ev":"rmns","ns":n}
   Output: {"steps":[{"res":R,"flags":[7 × null|bool],"open":[ctx ids],"log":[[op,fam,err],…]},…]} -/
 
 def famOf (n : Nat) : Family :=
@@ -38,6 +38,7 @@ def parseEv (j : Json) : Option Ev :=
   | some "throw" => some (.throw ((getNat j "g").getD 0)
       (match getNat j "code" with | some c => .cimError c | none => .osError))
   | some "disable" => some (.setDisabled ((getBool j "v").getD false))
+  | some "rmns" => some (.removeNs ((getNat j "ns").getD 0))
   | _ => none
 
 def natArr (l : List Nat) : Json := Json.arr (l.map (fun (n : Nat) => (n : Json))).toArray
